@@ -247,6 +247,7 @@ func c18BoardView(r *kit.Run, rec *world.Recording, tier string, v int, senderKe
 					muts = append(muts, mutant{Label: fmt.Sprintf("envelope.round/%q", rid), Msg: mm})
 				}
 				for _, mu := range muts {
+					kit.Mark(fmt.Sprintf("NodeService.ProcessMessage in %s: %s with %s; data: %.600s", bs, g.Event, mu.Label, mu.Msg.Data))
 					err, after, _ := lab.Step(bs.Snap, mu.Msg)
 					*evals++
 					cls := fmt.Sprintf("board|%s|%s", g.Event, mu.Label)
